@@ -164,17 +164,19 @@ def column(draw, name, kinds=ALL_KINDS, thorough=False, nulls=True, subs=None, l
         col["pool"] = draw(st.lists(ticks_for(unit, kind), min_size=1, max_size=12))
         col["null"] = draw(null_spec(nulls))
     elif kind == "category":
-        lk = draw(st.sampled_from([like["labels"]] if like else ["text", "text", "int", "float"]))
+        lk = draw(st.sampled_from([like["labels"]] if like else ["text", "text", "int", "float", "bool"]))
         col["labels"] = lk
         if lk == "text":
             cats = draw(st.lists(text_values(False), min_size=1, max_size=10, unique=True))
         elif lk == "int":
             cats = draw(st.lists(st.integers(-2 ** 40, 2 ** 40), min_size=1, max_size=10, unique=True))
+        elif lk == "bool":
+            cats = draw(st.sampled_from([[False, True], [True, False], [True], [False]]))
         else:
             cats = draw(st.lists(st.floats(allow_nan=False, width=64), min_size=1, max_size=10,
                                  unique_by=lambda x: (x, str(x))).filter(
                 lambda l: len({float(x) for x in l}) == len(l)))
-        if thorough and lk != "float" and draw(st.integers(0, 40)) == 0:
+        if thorough and lk in ("text", "int") and draw(st.integers(0, 40)) == 0:
             # many categories: cross the int8 / int16 code-width boundaries
             big = draw(st.sampled_from([127, 128, 129, 300]))
             cats = (["c%05d" % i for i in range(big)] if lk == "text" else list(range(1000, 1000 + big)))
